@@ -451,7 +451,7 @@ func RunC15(tier string) int {
 		rep.Exhaustive = false
 	}
 	{
-		mapOrdBudget = 150 * time.Second
+		mapOrdBudget = 240 * time.Second
 		if thorough {
 			mapOrdBudget = 20 * time.Minute
 		}
